@@ -8,8 +8,12 @@ import MW.Model.Remove
 import MW.Gen.Layout
 import MW.Lemmas.RemoveStep
 import MW.Lemmas.RemoveFrame
+import MW.Lemmas.RemoveProgress
+import MW.Lemmas.Layout
+import MW.Model.Import
 namespace MW.Props.C08
 open MW MW.Model.Ledger MW.Model.Remove MW.Lemmas.RemoveScan MW.Lemmas.RemoveStep MW.Lemmas.RemoveFrame
+  MW.Lemmas.RemoveProgress
 
 -- ------------------------------------------------------------------ remove_erases
 
@@ -237,5 +241,291 @@ theorem remove_frames (limit : Nat) (c : Ctx) (w : Wid) (addrs : List Addr) (s :
       subst h
       exact ⟨fun e _ => by rw [hu], fun e _ => by rw [ha], fun e _ => by rw [hg], fun e _ => by rw [hpg],
         fun e _ => by rw [hb], fun e _ => by rw [hst], ⟨hsy, hsyt⟩, hcred, hpend, hdeb, htx, hblk⟩
+
+
+/-- **remove_pending_kept.** A pending transaction that another wallet needs (not removable, judged after the
+    removed wallet's unmined credits are gone) keeps its record — with its full bytes, which may name the
+    removed wallet's script hashes in its outputs: that is the one place where they legitimately remain. -/
+theorem remove_pending_kept (limit : Nat) (c : Ctx) (w : Wid) (addrs : List Addr) (s : Store) (o : StepOut)
+    (hne : addrs ≠ []) (hfp : Functional s.pending) (h : removeStep limit c w addrs s = some o)
+    (x : TxId × Tx) (hx : x ∈ s.pending)
+    (hneeded : removable c.own (removeRelevantUnminedCredit s addrs).1 addrs x.2 = false) : x ∈ o.s.pending := by
+  unfold removeStep at h
+  cases hr : removeRelevantTx limit c s addrs with
+  | none => simp [hr] at h
+  | some o1 =>
+    simp only [hr] at h
+    obtain ⟨uh, del1, s2, del2, hnf, hmt, ho1⟩ := (removeRelevantTx_pipeline limit c s addrs o1 hne hr).ex
+    have hp0 : (removeRelevantUnminedCredit s addrs).1.pending = s.pending := unminedCredit_pending s addrs
+    have hk := unminedTxs_kept c.own (removeRelevantUnminedCredit s addrs).1 addrs uh (by rw [hp0]; exact hfp) x
+      (by rw [hp0]; exact hx) hneeded
+    have h1 : o1.s.pending = (removeUnminedTxs c.own (removeRelevantUnminedCredit s addrs).1 addrs uh).1.pending := by
+      rw [ho1]
+      show (checkBlockRecords s2 del2).pending = _
+      rw [blockRecords_proj Store.pending (fun _ _ => rfl),
+          minedTxs_proj Store.pending (fun _ _ => rfl) c _ addrs _ (s2, del2) hmt]
+      exact (scan_recs_pending limit _ addrs).2
+    by_cases hfin : o1.finish = true
+    · simp only [hfin, if_true, Option.some.injEq] at h
+      have ho : o = _ := h.symm
+      subst ho
+      show x ∈ o1.s.pending
+      rw [h1]; exact hk
+    · simp only [hfin, Bool.false_eq_true, if_false, Option.some.injEq] at h
+      have ho : o = o1 := h.symm
+      subst ho
+      rw [h1]; exact hk
+
+/-- FULL statement of "the survivors stay correct under LATER reorganisations", kept type-checked: rolling back
+    after a removal step gives, on every other wallet's projection, what rolling back before it gives.
+    NOT PROVED: it needs a frame argument through MW.Model.Ledger.rollback (nested monadic loops); what is proved
+    instead is that every record `rollback` reads for another wallet survives the step (`remove_frames`:
+    `txrecs`, `blocks`, `credits`, `debits`, id-keyed buckets), and the three-way differential runs compare the
+    survivors with the chain specification after reorganisations that follow a removal. -/
+def remove_frames_rollback_full : Prop :=
+  ∀ (limit : Nat) (c : Ctx) (w w' : Wid) (addrs : List Addr) (s : Store) (o : StepOut) (height : Nat) (r r' : Store),
+    w' ≠ w → removeStep limit c w addrs s = some o →
+    rollback c s height = .ok r → rollback c o.s height = .ok r' →
+    (∀ e, e.1.1 = w' → (e ∈ r'.unspent ↔ e ∈ r.unspent)) ∧ AMap.get r'.balance w' = AMap.get r.balance w'
+
+-- ------------------------------------------------------------------ remove_resumes
+
+/-- **remove_progress.** A step that does not finish leaves strictly fewer credits of the removed wallet
+    (for ANY positive step size; the code's 20000 is `MW.Gen.Handler.removeCreditStep`). -/
+theorem remove_progress (limit : Nat) (hl : limit > 0) (c : Ctx) (w : Wid) (addrs : List Addr) (s : Store) (o : StepOut)
+    (hne : addrs ≠ []) (h : removeStep limit c w addrs s = some o) (hnf : o.finish = false) :
+    left o.s addrs < left s addrs := by
+  unfold removeStep at h
+  cases hr : removeRelevantTx limit c s addrs with
+  | none => simp [hr] at h
+  | some o1 =>
+    simp only [hr] at h
+    by_cases hfin : o1.finish = true
+    · simp only [hfin, if_true, Option.some.injEq] at h
+      have ho : o = _ := h.symm
+      subst ho
+      simp at hnf
+    · simp only [hfin, Bool.false_eq_true, if_false, Option.some.injEq] at h
+      have ho : o = o1 := h.symm
+      subst ho
+      obtain ⟨s1, hcd1, hcd, hfe, _⟩ := (removeRelevantTx_spec limit c s addrs o hne hr).credits
+      have h1 : o.s.credits = (removeRelevantCredit limit s1 addrs).s.credits := congrArg Prod.fst hcd
+      have h2 : s1.credits = s.credits := congrArg Prod.fst hcd1
+      have := removeRelevantCredit_decreases limit hl s1 addrs (by rw [← hfe]; exact hnf)
+      unfold left at this ⊢
+      rw [h1, ← h2]; exact this
+
+/-- the worker loop of asyncRemove, restarted or not: every step starts from the persistent store alone
+    (`removeStep` has no volatile argument — a restart between two steps changes nothing it reads) -/
+inductive RunRes
+  | done (s : Store)
+  | failed
+  | outOfFuel
+
+def run (limit : Nat) (c : Ctx) (w : Wid) (addrs : List Addr) : Nat → Store → RunRes
+  | 0, _ => .outOfFuel
+  | n + 1, s =>
+    match removeStep limit c w addrs s with
+    | none => .failed
+    | some o => if o.finish then .done o.s else run limit c w addrs n o.s
+
+/-- **remove_resumes.** From any store — in particular the one a crash or shutdown between two steps left
+    behind — the removal ends after at most (credits of the wallet + 1) steps: either it completes, or a step's
+    transaction fails (and rolls back); it never goes on for ever. -/
+theorem remove_resumes (limit : Nat) (hl : limit > 0) (c : Ctx) (w : Wid) (addrs : List Addr) (hne : addrs ≠ [])
+    (n : Nat) (s : Store) (hn : left s addrs < n) : run limit c w addrs n s ≠ .outOfFuel := by
+  induction n generalizing s with
+  | zero => omega
+  | succ n ih =>
+    unfold run
+    cases hstep : removeStep limit c w addrs s with
+    | none => simp
+    | some o =>
+      simp only
+      by_cases hfin : o.finish = true
+      · simp [hfin]
+      · simp only [hfin, Bool.false_eq_true, if_false]
+        have hdec := remove_progress limit hl c w addrs s o hne hstep (by simpa using hfin)
+        exact ih o.s (by omega)
+
+/-- when the run completes, the wallet is erased (remove_erases at the last step) -/
+theorem run_done_clean (limit : Nat) (c : Ctx) (w : Wid) (addrs : List Addr) (hne : addrs ≠ [])
+    (n : Nat) (s s' : Store) (h : run limit c w addrs n s = .done s') : Clean s' w addrs := by
+  induction n generalizing s with
+  | zero => simp [run] at h
+  | succ n ih =>
+    unfold run at h
+    cases hstep : removeStep limit c w addrs s with
+    | none => simp [hstep] at h
+    | some o =>
+      simp only [hstep] at h
+      by_cases hfin : o.finish = true
+      · simp only [hfin, if_true, RunRes.done.injEq] at h
+        subst h
+        exact remove_erases limit c w addrs s o hne hstep hfin
+      · simp only [hfin, Bool.false_eq_true, if_false] at h
+        exact ih o.s h
+
+-- ------------------------------------------------------------------ remove_gated
+
+/-- **remove_gated.** RemoveWallet is accepted only when the worker queue has room, the keystore exists, the
+    passphrase is right and the wallet is ready (not importing); then exactly the removal flag is set. -/
+theorem remove_gated (q : Nat) (ks : List Wid) (passOk : Bool) (s : Store) (w : Wid)
+    (h : (removeWallet q ks passOk s w).1 = .ok) :
+    q < Gen.Handler.maxWaitingTaskNum ∧ ks.contains w = true ∧ passOk = true ∧
+    ∃ st, AMap.get s.status w = some st ∧ st.synced = none ∧
+      (removeWallet q ks passOk s w).2 = { s with status := AMap.put s.status w { st with removed := true } } := by
+  unfold removeWallet at h ⊢
+  by_cases h1 : q ≥ Gen.Handler.maxWaitingTaskNum
+  · rw [if_pos h1] at h; cases h
+  · rw [if_neg h1] at h ⊢
+    by_cases h2 : (!ks.contains w) = true
+    · rw [if_pos h2] at h; cases h
+    · rw [if_neg h2] at h ⊢
+      by_cases h3 : (!passOk) = true
+      · rw [if_pos h3] at h; cases h
+      · rw [if_neg h3] at h ⊢
+        cases hst : AMap.get s.status w with
+        | none => rw [hst] at h; cases h
+        | some st =>
+          rw [hst] at h
+          simp only at h ⊢
+          by_cases h4 : st.synced.isSome = true
+          · rw [if_pos h4] at h; cases h
+          · rw [if_neg h4]
+            refine ⟨by omega, by simpa using h2, by simpa using h3, st, rfl, by simpa using h4, rfl⟩
+
+/-- a refused request changes nothing -/
+theorem remove_refused_unchanged (q : Nat) (ks : List Wid) (passOk : Bool) (s : Store) (w : Wid)
+    (h : (removeWallet q ks passOk s w).1 ≠ .ok) : (removeWallet q ks passOk s w).2 = s := by
+  unfold removeWallet at h ⊢
+  repeat' split
+  all_goals first | rfl | (exfalso; apply h; simp_all)
+
+/-- … and it is refused while the wallet is importing, whatever the passphrase -/
+theorem remove_refused_while_importing (q : Nat) (ks : List Wid) (passOk : Bool) (s : Store) (w : Wid)
+    (st : WStatus) (hst : AMap.get s.status w = some st) (cur : Nat) (hc : st.synced = some cur) :
+    (removeWallet q ks passOk s w).1 ≠ .ok := by
+  intro h
+  obtain ⟨_, _, _, st', hst', hsy, _⟩ := remove_gated q ks passOk s w h
+  rw [hst] at hst'; cases hst'
+  rw [hc] at hsy; cases hsy
+
+-- ------------------------------------------------------------------ reimport_ok
+
+/-- **reimport_ok.** After the finishing step the wallet has no status and no balance record (it is not listed
+    and is not an importing wallet), so importing the same keystore again starts from a blank slate: status
+    "importing from height 0" (not selectable), balance 0, and none of its old credits in the way. -/
+theorem reimport_ok (limit : Nat) (c : Ctx) (w : Wid) (addrs : List Addr) (s : Store) (o : StepOut)
+    (hne : addrs ≠ []) (h : removeStep limit c w addrs s = some o) (hf : o.finish = true) :
+    AMap.get o.s.status w = none ∧ AMap.get o.s.balance w = none ∧
+    (∀ e ∈ o.s.credits, addrs.contains e.2.sh = false) ∧
+    let s' := Model.Import.importWalletStore o.s w addrs
+    AMap.get s'.status w = some ⟨some 0, false⟩ ∧ AMap.get s'.balance w = some 0 ∧
+    Model.Import.useWallet s' (w :: c.wallets) w = .unready := by
+  have hc := remove_erases limit c w addrs s o hne h hf
+  have hs : AMap.get o.s.status w = none := get_eq_none_of_forall _ _ hc.status
+  have hb : AMap.get o.s.balance w = none := get_eq_none_of_forall _ _ hc.balance
+  refine ⟨hs, hb, hc.credits, ?_⟩
+  have hemp : addrs.isEmpty = false := by cases addrs <;> simp_all
+  have key : ∀ (l : List Addr) (t : Store), (l.foldl (fun s a => { s with addrs := AMap.put s.addrs (w, false, a) 0 }) t).status = t.status ∧
+      (l.foldl (fun s a => { s with addrs := AMap.put s.addrs (w, false, a) 0 }) t).balance = t.balance := by
+    intro l
+    induction l with
+    | nil => intro t; exact ⟨rfl, rfl⟩
+    | cons a l ih => intro t; simp only [List.foldl_cons]; exact ⟨(ih _).1, (ih _).2⟩
+  simp only [Model.Import.importWalletStore, hemp, Bool.false_eq_true, if_false]
+  refine ⟨?_, ?_, ?_⟩
+  · rw [(key _ _).1, AMap.get_put]; simp
+  · rw [(key _ _).2, AMap.get_put]; simp
+  · unfold Model.Import.useWallet
+    rw [(key _ _).1, AMap.get_put]; simp
+
+-- ------------------------------------------------------------------ layout_prefix_exact
+
+/-- **layout_prefix_exact.** Every key that the removal deletes by a prefix scan on the wallet id starts with
+    the wallet id as a fixed 42-byte field (regenerated from txmgr/utxostore_db.go: MW.Gen.Layout) … -/
+theorem layout_id_first : ∀ L ∈ Gen.Layout.idPrefixed,
+    L.fields.head? = some ⟨"walletId", 0, Gen.Layout.walletIdLen⟩ := by decide
+
+/-- … and for byte strings of that fixed width a prefix scan is exact: key `id' ++ rest` is hit by the scan for
+    `id` iff `id' = id`.  (With variable-width ids, `ab` would also hit the keys of wallet `abc`.)  This is why the
+    model's `removeWalletIndexes` may filter on equality of the wallet component. -/
+theorem layout_prefix_exact (id id' rest : List UInt8)
+    (h : id.length = Gen.Layout.walletIdLen) (h' : id'.length = Gen.Layout.walletIdLen) :
+    id.isPrefixOf (id' ++ rest) = true ↔ id' = id := by
+  rw [Lemmas.Layout.isPrefixOf_append_iff id id' rest (h.trans h'.symm)]
+  exact eq_comm
+
+/-- the same fact fails without the fixed width — the hypothesis is needed (a test, by evaluation) -/
+example : ([1, 2] : List UInt8).isPrefixOf ([1, 2, 3] ++ [9]) = true ∧ ([1, 2, 3] : List UInt8) ≠ [1, 2] := by decide
+
+
+-- ------------------------------------------------------------------ non-vacuity: a concrete store meeting every hypothesis
+
+namespace Ex
+/-- wallet W1 (address A1) received C1:0 in block B1; transaction T3 in block B6 spends it and pays ONLY wallet W2
+    (address A2) and a stranger — the situation of defect D11 — and W2 is being removed. -/
+def c1 : Tx := ⟨"C1", true, [], [⟨"A1", 500, .std⟩]⟩
+def t3 : Tx := ⟨"T3", false, [⟨"C1", 0, 0⟩], [⟨"A2", 300, .std⟩, ⟨"X1", 199, .std⟩]⟩
+def t4 : Tx := ⟨"T4", true, [], [⟨"A2", 7, .std⟩]⟩
+def b1 : Block := ⟨"B1", "G", 1, [c1]⟩
+def b6 : Block := ⟨"B6", "B1", 2, [t4, t3]⟩
+def ctx : Ctx := { p := {}, own := [("A1", ("W1", false)), ("A2", ("W2", false))], wallets := ["W1", "W2"],
+                   node := { chain := [⟨"G", "", 0, []⟩, b1, b6], known := [("B1", b1), ("B6", b6)] } }
+def k1 : CredKey := ⟨"C1", ⟨1, "B1"⟩, 0⟩
+def k3 : CredKey := ⟨"T3", ⟨2, "B6"⟩, 0⟩
+def k4 : CredKey := ⟨"T4", ⟨2, "B6"⟩, 0⟩
+def st : Store :=
+  { credits := [(k4, ⟨7, false, false, .standard, 0, "A2", none⟩), (k3, ⟨300, false, false, .standard, 0, "A2", none⟩),
+                (k1, ⟨500, true, false, .standard, 0, "A1", some k3⟩)],
+    debits := [(k3, (500, k1))],
+    unspent := [(("W2", "T4", 0), ⟨2, "B6"⟩), (("W2", "T3", 0), ⟨2, "B6"⟩)],
+    balance := [("W1", 0), ("W2", 307)],
+    txrecs := [(("T4", ⟨2, "B6"⟩), ("B6", 0)), (("T3", ⟨2, "B6"⟩), ("B6", 1)), (("C1", ⟨1, "B1"⟩), ("B1", 0))],
+    blocks := [(2, ("B6", ["T4", "T3"])), (1, ("B1", ["C1"]))],
+    status := [("W1", ⟨none, false⟩), ("W2", ⟨none, true⟩)],
+    addrs := [(("W1", false, "A1"), 1), (("W2", false, "A2"), 2)] }
+
+/-- the rule as it was before the repair of D11: outputs only -/
+def removableOld (own : Own) (addrs : List Addr) (tx : Tx) : Bool :=
+  !(tx.outs.any (fun o => o.cls != .raw && !addrs.contains o.addr && (AMap.get own o.addr).isSome))
+end Ex
+open Ex
+
+/-- hypotheses of remove_erases / remove_frames are met (tests by evaluation on the concrete store) -/
+example : (removeStep 20000 ctx "W2" ["A2"] st).map (·.finish) = some true := by decide
+example : Functional st.credits := by
+  intro e e' he he' hk
+  simp [st] at he he'
+  rcases he with rfl | rfl | rfl <;> rcases he' with rfl | rfl | rfl <;> first | rfl | (exfalso; revert hk; decide)
+example : Functional st.txrecs := by
+  intro e e' he he' hk
+  simp [st] at he he'
+  rcases he with rfl | rfl | rfl <;> rcases he' with rfl | rfl | rfl <;> first | rfl | (exfalso; revert hk; decide)
+example : SpenderBack st := by
+  intro e he dk hdk x hx hxk
+  simp [st] at he hx
+  subst hx
+  rcases he with rfl | rfl | rfl
+  · cases hdk
+  · cases hdk
+  · rfl
+
+/-- D11, as a test on the concrete store: the old outputs-only rule would have deleted T3's record, the repaired
+    rule keeps it (T3 spends W1's credit), and after the finishing step the record and its block-record entry —
+    what Rollback needs to give W1 its coin back — are still there, while the coinbase T4 that paid only W2 is gone -/
+example : removableOld ctx.own ["A2"] t3 = true ∧ removable ctx.own st ["A2"] t3 = false := by decide
+example : (removeStep 20000 ctx "W2" ["A2"] st).map (fun o => (o.s.txrecs.map (·.1.1), o.s.blocks.map (·.2.2), o.s.debits.length)) =
+    some (["T3", "C1"], [["T3"], ["C1"]], 1) := by decide
+
+/-- remove_progress / remove_resumes: with step size 1 the same removal needs two steps (tests) -/
+example : (removeStep 1 ctx "W2" ["A2"] st).map (fun o => (o.finish, left o.s ["A2"])) = some (false, 1) ∧ left st ["A2"] = 2 := by decide
+example : (match run 1 ctx "W2" ["A2"] 3 st with | .done s' => some (s'.credits.length, s'.status.length) | _ => none) = some (1, 1) := by decide
+
+/-- remove_gated (tests): accepted with the right passphrase on a ready wallet; refused when importing -/
+example : (removeWallet 0 ["W1", "W2"] true st "W1").1 = .ok := by decide
+example : (removeWallet 0 ["W1"] true { st with status := [("W1", ⟨some 5, false⟩)] } "W1").1 = .unready := by decide
+example : (removeWallet 0 ["W1", "W2"] false st "W1").1 = .badPass ∧ (removeWallet 3 ["W1", "W2"] true st "W1").1 = .busy := by decide
 
 end MW.Props.C08
